@@ -1,7 +1,7 @@
 /-
 Model of the *decision logic* of the bundled DASH validator
 (`dashlive/mpeg/dash/validator/`), as it is in the tree after the `fix:` commits
-3c714d3 (mandatory moov boxes), 0554b9e (MPD@profiles/@minBufferTime, Period@id),
+3c714d3 + the follow-up (mandatory moov boxes, codec guard), 0554b9e (MPD@profiles/@minBufferTime, Period@id),
 1951de2 (missing @media/S@d/@availabilityStartTime/@timeShiftBufferDepth are
 errors, template errors reachable) and c08f3f9 (no minimumUpdatePeriod).
 
@@ -199,26 +199,44 @@ def obsDuration (c : RepCtx) (o : SegObs) : Nat :=
   | none => d
   | some m => if m ≠ c.dashTs ∧ m ≠ 0 then d * c.dashTs / m else d
 
+/-- the status the request must answer with (media_segment.py:124-133) -/
+def wantStatus (c : RepCtx) : Nat := if c.ranged then 206 else 200
+
+def ctypeErrs (o : SegObs) : List SegErr := if o.ctypeOk then [] else [.contentType]
+
+/-- :150-156 -/
+def encErrs (c : RepCtx) (o : SegObs) : List SegErr :=
+  if c.infoEncrypted then checkSaio o else (if o.senc.isSome then [.sencInClear] else [])
+
+/-- :162-165 -/
+def seqErrs (e : SegExp) (o : SegObs) : List SegErr :=
+  match e.expSeq with
+  | some n => if n = (o.seq : Int) then [] else [.seqNum]
+  | none => []
+
+/-- :166-178 -/
+def decodeErrs (e : SegExp) (o : SegObs) : List SegErr :=
+  match e.expDecode with
+  | some t => if almostEqual t o.tfdt e.tol then [] else [.decodeTime]
+  | none => []
+
+/-- :214-218 -/
+def durErrs (c : RepCtx) (e : SegExp) (o : SegObs) : List SegErr :=
+  match e.expDur with
+  | some d => if almostEqual d (obsDuration c o) c.dashTs then [] else [.duration]
+  | none => []
+
+/-- everything after the decode-time check (:179-218) -/
+def segTail (c : RepCtx) (e : SegExp) (o : SegObs) : List SegErr :=
+  if ¬ c.hasMoov then [.moovMissing] else
+  ptsLoop e.pto o.tfdt [] o.samples ++
+    (if c.mediaTs = some 0 ∨ c.dashTs = 0 then [.zeroTimescale] else durErrs c e o)
+
 /-- `MediaSegment.validate_segment` from the HTTP response on (media_segment.py:120-220) -/
 def validateSegment (c : RepCtx) (e : SegExp) (o : SegObs) : List SegErr :=
-  if o.status ≠ (if c.ranged then 206 else 200) then [.status] else
-  let e0 : List SegErr := if o.ctypeOk then [] else [.contentType]
-  let p := parseData c o
-  if ¬ p.2 then e0 ++ p.1 ++ [.noMoof] else
-  let e1 := e0 ++ p.1 ++
-    (if c.infoEncrypted then checkSaio o else (if o.senc.isSome then [.sencInClear] else []))
-  let e2 := e1 ++ (match e.expSeq with
-    | some n => if n = (o.seq : Int) then [] else [SegErr.seqNum]
-    | none => [])
-  let e3 := e2 ++ (match e.expDecode with
-    | some t => if almostEqual t o.tfdt e.tol then [] else [SegErr.decodeTime]
-    | none => [])
-  if ¬ c.hasMoov then e3 ++ [.moovMissing] else
-  let e4 := e3 ++ ptsLoop e.pto o.tfdt [] o.samples
-  if c.mediaTs = some 0 ∨ c.dashTs = 0 then e4 ++ [.zeroTimescale] else
-  e4 ++ (match e.expDur with
-    | some d => if almostEqual d (obsDuration c o) c.dashTs then [] else [SegErr.duration]
-    | none => [])
+  if o.status ≠ wantStatus c then [.status] else
+  if ¬ (parseData c o).2 then ctypeErrs o ++ (parseData c o).1 ++ [.noMoof] else
+  ctypeErrs o ++ (parseData c o).1 ++ encErrs c o ++ seqErrs e o ++ decodeErrs e o ++ segTail c e o
 
 /-- has the segment produced the values the Representation loop reads afterwards
 (`seg_num`, `decode_time`, `next_decode_time`, `duration`)?  `seg_num`/`decode_time` are set
@@ -232,7 +250,7 @@ structure SegRes where
 def SegRes.none : SegRes := { seq := Option.none, duration := Option.none, nextDecode := Option.none }
 
 def segResult (c : RepCtx) (o : SegObs) : SegRes :=
-  if o.status ≠ (if c.ranged then 206 else 200) then .none else
+  if o.status ≠ wantStatus c then .none else
   if ¬ (parseData c o).2 then .none else
   if ¬ c.hasMoov then { seq := some o.seq, duration := Option.none, nextDecode := Option.none } else
   -- duration is assigned before the zero-timescale return (:201-202)
@@ -446,12 +464,15 @@ inductive InitErr
 
 /-- init_segment.py `MANDATORY_MOOV_BOXES`: each entry lists the accepted alternatives -/
 def mandatoryMoovBoxes : List (List String) :=
-  [["mvhd"], ["mvex"], ["trex"], ["dinf"], ["stts"], ["stsc"], ["stsz", "stz2"], ["stco", "co64"],
-   ["vmhd", "smhd", "hmhd", "sthd", "nmhd"]]
+  [["mvhd"], ["mvex"], ["trex"], ["minf"], ["dinf"], ["stbl"], ["stsd"], ["stts"], ["stsc"],
+   ["stsz", "stz2"], ["stco", "co64"], ["vmhd", "smhd", "hmhd", "sthd", "nmhd"]]
 
 /-- boxes `Representation.process_moov` dereferences unconditionally
-(dashlive/mpeg/dash/representation.py:257-286): their absence raises -/
-def processMoovBoxes : List String := ["trak", "mdia", "mdhd", "tkhd", "minf", "stbl", "stsd", "hdlr"]
+(dashlive/mpeg/dash/representation.py:257-286): their absence raises.  The sample entry is
+looked up inside a `try` (:268-274); only `process_video_moov` dereferences it (:290), so a
+video track also needs `minf/stbl/stsd`. -/
+def processMoovBoxes (video : Bool) : List String :=
+  ["trak", "mdia", "mdhd", "tkhd", "hdlr"] ++ (if video then ["minf", "stbl", "stsd"] else [])
 
 /-- what was parsed from the init-segment response -/
 structure InitObs where
@@ -461,6 +482,8 @@ structure InitObs where
   top : List String
   /-- four-character codes of every box below the (first) moov -/
   moov : List String
+  /-- `hdlr.handler_type == 'vide'` -/
+  video : Bool := false
   ranged : Bool := false
   deriving Repr
 
@@ -469,7 +492,7 @@ def initLoad (o : InitObs) : List InitErr × Bool :=
   if ¬ o.hasUrl then ([.url], false) else
   if o.status ≠ (if o.ranged then 206 else 200) then ([.status], false) else
   if ¬ o.top.contains "moov" then ([.noMoov], false) else
-  if processMoovBoxes.all (o.moov.contains ·) then ([], true) else ([.parse], false)
+  if (processMoovBoxes o.video).all (o.moov.contains ·) then ([], true) else ([.parse], false)
 
 def mandatoryErrors (moov : List String) : List InitErr :=
   (mandatoryMoovBoxes.zipIdx).filterMap fun p =>
